@@ -61,39 +61,44 @@ Proof.
   rewrite run_collect by (try exact Hw; discriminate). cbn [app]. apply three_ticks.
 Qed.
 
-(* a blank after a word closes it *)
-Lemma step_space_stack ents k w : w <> [] ->
-  estep {| e_entities := ents; e_ticks := k; e_stack := w |} SP = clean_state (ents ++ [w]).
-Proof. intro H. unfold estep, add_then_clear, clean_state. cbn. destruct w; [contradiction | reflexivity]. Qed.
-Lemma step_space_empty ents k : estep {| e_entities := ents; e_ticks := k; e_stack := [] |} SP = clean_state ents.
-Proof. reflexivity. Qed.
+(* a blank (any whitespace character: a space, a line break, a tab) after a word closes it *)
+Lemma step_space_stack ents k w c : is_space c = true -> w <> [] ->
+  estep {| e_entities := ents; e_ticks := k; e_stack := w |} c = clean_state (ents ++ [w]).
+Proof. intros Hc H. unfold estep, add_then_clear, clean_state. rewrite Hc. cbn. destruct w; [contradiction | reflexivity]. Qed.
+Lemma step_space_empty ents k c : is_space c = true -> estep {| e_entities := ents; e_ticks := k; e_stack := [] |} c = clean_state ents.
+Proof. intro Hc. unfold estep. rewrite Hc. reflexivity. Qed.
 
 Definition entities_of (ts : list token) : list str := map snd (filter fst ts).
 
 (* state after a token that is followed by a blank *)
-Lemma run_token_sp t ents : token_ok t = true ->
-  fold_left estep (render t ++ [SP]) (clean_state ents) = clean_state (ents ++ entities_of [t]).
+Lemma run_token_sp t c ents : token_ok t = true -> is_space c = true ->
+  fold_left estep (render t ++ [c]) (clean_state ents) = clean_state (ents ++ entities_of [t]).
 Proof.
-  destruct t as [[|] w]; unfold token_ok, render, entities_of; cbn [fst snd filter map]; intro H; apply andb_prop in H; destruct H as [Hp Hn].
+  intros H Hc. destruct t as [[|] w]; unfold token_ok, render, entities_of in *; cbn [fst snd filter map] in *; apply andb_prop in H; destruct H as [Hp Hn].
   - cbn [negb orb] in Hn. apply negb_true_iff in Hn. apply Nat.eqb_neq in Hn.
     assert (Hne : w <> []) by (intro K; apply Hn; rewrite K; reflexivity).
-    rewrite fold_left_app. replace (FENCE3 ++ w ++ FENCE3) with (FENCE3 ++ w ++ FENCE3) by reflexivity.
-    rewrite (run_fenced w ents Hp Hne). cbn [fold_left]. apply step_space_stack. exact Hne.
-  - rewrite fold_left_app. unfold clean_state. rewrite (run_plain w ents 0 Hp) by lia. cbn [fold_left]. rewrite app_nil_r. reflexivity.
+    rewrite fold_left_app. rewrite (run_fenced w ents Hp Hne). cbn [fold_left]. apply step_space_stack; assumption.
+  - rewrite fold_left_app. unfold clean_state. rewrite (run_plain w ents 0 Hp) by lia. cbn [fold_left]. rewrite app_nil_r. apply step_space_empty. exact Hc.
 Qed.
 
-Lemma run_tokens : forall ts ents, forallb token_ok ts = true ->
-  fold_left estep (concat (map (fun t => render t ++ [SP]) ts)) (clean_state ents) = clean_state (ents ++ entities_of ts).
+(* tokens, each followed by its own blank character *)
+Definition spaced := (token * char)%type.
+Definition render_spaced (tc : spaced) : str := render (fst tc) ++ [snd tc].
+Definition spaced_ok (tc : spaced) : bool := token_ok (fst tc) && is_space (snd tc).
+
+Lemma run_tokens : forall (ts : list spaced) ents, forallb spaced_ok ts = true ->
+  fold_left estep (concat (map render_spaced ts)) (clean_state ents) = clean_state (ents ++ entities_of (map fst ts)).
 Proof.
-  induction ts as [|t r IH]; intros ents H; cbn [map concat]; [unfold entities_of; cbn; rewrite app_nil_r; reflexivity|].
-  cbn [forallb] in H. apply andb_prop in H. destruct H as [Ht Hr].
-  rewrite fold_left_app, (run_token_sp t ents Ht), (IH _ Hr). rewrite <- app_assoc. f_equal. f_equal.
-  unfold entities_of. cbn [filter]. destruct (fst t); reflexivity.
+  induction ts as [|[t c] r IH]; intros ents H; cbn [map concat]; [unfold entities_of; cbn; rewrite app_nil_r; reflexivity|].
+  cbn [forallb] in H. apply andb_prop in H. destruct H as [Ht Hr]. unfold spaced_ok in Ht. cbn [fst snd] in Ht. apply andb_prop in Ht. destruct Ht as [T1 T2].
+  unfold render_spaced at 1. cbn [fst snd].
+  rewrite fold_left_app, (run_token_sp t c ents T1 T2), (IH _ Hr). rewrite <- app_assoc. f_equal. f_equal.
+  unfold entities_of. cbn [map filter fst]. destruct (fst t); reflexivity.
 Qed.
 
-(* the text: words separated by single blanks (a trailing blank or not makes no difference) *)
-Theorem entities_are_the_fenced_words ts last_ : forallb token_ok ts = true -> token_ok last_ = true ->
-  extract_entities (concat (map (fun t => render t ++ [SP]) ts) ++ render last_) = entities_of (ts ++ [last_]).
+(* the text: words separated by blanks of any kind (a trailing blank or not makes no difference) *)
+Theorem entities_are_the_fenced_words (ts : list spaced) last_ : forallb spaced_ok ts = true -> token_ok last_ = true ->
+  extract_entities (concat (map render_spaced ts) ++ render last_) = entities_of (map fst ts ++ [last_]).
 Proof.
   intros H Hl. unfold extract_entities. rewrite fold_left_app. change einit with (clean_state []). rewrite (run_tokens ts [] H). cbn [app].
   destruct last_ as [[|] w]; unfold token_ok, render in *; cbn [fst snd] in *; apply andb_prop in Hl; destruct Hl as [Hp Hn].
@@ -107,7 +112,8 @@ Qed.
 
 (* the yml block of a generated route: two fenced names; the operation is about the one that is not "ServerError" *)
 Example entities_example :
-  extract_entities (s2l "responses: '200': description: A `Config` object. $ref: ```Config``` '400': $ref: ```ServerError```")
+  extract_entities (s2l "responses:" ++ [NL] ++ s2l "  '200':" ++ [NL] ++ s2l "    description: A `Config` object." ++ [NL] ++ s2l "    $ref: ```Config```" ++ [NL]
+                    ++ s2l "  '400':" ++ [NL] ++ s2l "    $ref: ```ServerError```")
   = [s2l "Config"; s2l "ServerError"]
   /\ pick_entity [s2l "Config"; s2l "ServerError"] = Some (s2l "Config")
   /\ pick_entity [s2l "ServerError"] = None.
